@@ -518,6 +518,16 @@ def check_columns(case, rec=None):
             fails.append(fail("columns", "%s: ds column differs from 2 sin(theta)/lambda of the object's current "
                               "parameters by %.3g, |g| from ds by %.3g (edited %s)" % (label, e1, e2, names),
                               what="bragg"))
+        else:
+            # and g is k(two-theta, eta) of the same row taken back through wedge, chi and omega (harness formulas)
+            from vf import oracles as O_
+            gk = O_.geo_g_from_k(O_.geo_k(tth, np.asarray(cf.eta, float), pars["wavelength"]),
+                                 np.asarray(cf.omega, float) * pars["omegasign"], pars)
+            e3 = np.abs(g - np.asarray(gk).reshape(g.shape)).max()
+            if not e3 <= 10 * tol:
+                fails.append(fail("columns", "%s: gx, gy, gz differ from Omega.Chi.Wedge.k of the row's own two-theta, eta "
+                                  "and omega by %.3g (wedge %.3f chi %.3f)" % (label, e3, pars["wedge"], pars["chi"]),
+                                  what="g_from_angles"))
 
     for fast in (True, False):
         label = "columnfile.updateGeometry(fast=%s)" % fast
